@@ -110,7 +110,8 @@ type snap struct {
 	// stale is set on restored values only: why a restored staging signature
 	// does not belong to the restored staged state.
 	stale string
-	nsig  int // filled staging signature slots (for messages only)
+	nsig  int            // filled staging signature slots (for messages only)
+	slots map[int]string // filled staging signature slots
 }
 
 func stateStr(s *channel.State) string {
@@ -153,9 +154,13 @@ func snapOf(src channel.Source, peers []peerMap, parent *channel.ID) *snap {
 	cur, st := src.CurrentTX(), src.StagingTX()
 	s.f[fCur], s.f[fCurSigs] = stateStr(cur.State), sigsStr(cur.Sigs)
 	s.f[fStaged], s.f[fStagedSigs] = stateStr(st.State), sigsStr(st.Sigs)
-	for _, sig := range st.Sigs {
+	for i, sig := range st.Sigs {
 		if sig != nil {
 			s.nsig++
+			if s.slots == nil {
+				s.slots = map[int]string{}
+			}
+			s.slots[i] = string(sig)
 		}
 	}
 	var sb strings.Builder
@@ -184,6 +189,33 @@ func sameSnap(a, b *snap) bool {
 		return a == nil && b == nil
 	}
 	return a.f == b.f
+}
+
+// extraStagingSig reports whether got equals want except that it carries
+// staging signatures in slots that are empty in want: signatures that were
+// not collected for the staged state the machine has (the property: "staged
+// state with exactly the signatures collected for it").
+func extraStagingSig(got, want *snap) (slot int, yes bool) {
+	if got == nil || want == nil {
+		return 0, false
+	}
+	for i := 0; i < nFields; i++ {
+		if i != fStagedSigs && got.f[i] != want.f[i] {
+			return 0, false
+		}
+	}
+	slot = -1
+	for i, sig := range want.slots {
+		if got.slots[i] != sig {
+			return 0, false
+		}
+	}
+	for i := range got.slots {
+		if _, ok := want.slots[i]; !ok && (slot < 0 || i < slot) {
+			slot = i
+		}
+	}
+	return slot, slot >= 0
 }
 
 // diffNames lists the fields in which two snapshots differ.
@@ -938,6 +970,9 @@ func (w *world) checkCrashPoints(c *chn, op string, err error, before, after *sn
 		}
 		w.checkImage(c, op, w.opImages[k-1], before, after, k == nb, k, nb)
 	}
+	if w.res.Violation == nil {
+		w.logf("  crash after each of the writes %d..%d: RestoreChannel and RestorePeer yield the state before or after %s (after it at write %d); other live channels unchanged", b0+1, b1, op, b1)
+	}
 	w.curImage = w.opImages[nb-1]
 }
 
@@ -1007,7 +1042,10 @@ func (w *world) checkImage(c *chn, op string, img image, before, after *snap, la
 		}
 		detail := fmt.Sprintf("%s: %s yields %s (error: %v); before the operation: %s, after it: %s; differs from before in [%s], from after in [%s]",
 			where, view, got.brief(), verr, before.brief(), after.brief(), diffNames(got, before), diffNames(got, after))
+		slot, extra := extraStagingSig(got, after)
 		switch {
+		case extra:
+			w.fail("C10.stale-staging-sig@"+method(op), "signature slot %d is restored filled although the machine has collected no signature in it for the staged state: %s", slot, detail)
 		case last && eq(before):
 			w.fail("C10.lost-write@"+op, "the operation completed but the state before it is restored: %s", detail)
 		case got == nil:
@@ -1099,6 +1137,9 @@ func mismatchClass(got, want *snap) string {
 	}
 	if got == nil || want == nil {
 		return "presence"
+	}
+	if _, extra := extraStagingSig(got, want); extra {
+		return "stale-staging-sig"
 	}
 	for i := 0; i < nFields; i++ {
 		if got.f[i] != want.f[i] {
